@@ -134,10 +134,23 @@ PROPS["C12"]["rule"] += ("; lookups engine: real getput.Get / Put against simula
                          "forged-seq / wrong-signer / wrong-key / other-salt / bit-flip / no-sig / key-without-seq / reused-signature / immutable "
                          "wrong-value replies")
 PROPS["C12"]["assumptions"] = []
+PROPS["C12"]["engines"] = ["bep44", "server", "lookups", "flood"]
+PROPS["C12"]["rule"] += "; flood engine: 40 rounds of a get delivered just before a put of the next version: every get reply must verify under its key"
 PROPS["C20"]["engines"] = ["server", "query"]
 PROPS["C20"]["rule"] += "; query engine: QueryRateLimiting policy grid x exact budgets (per-send rated/wait predicate, give-back on failed write)"
-PROPS["C01"]["engines"] = ["server", "maint", "query", "lookups"]
+PROPS["C01"]["engines"] = ["server", "maint", "flood", "query", "lookups"]
+PROPS["C08"]["engines"] = ["server", "flood"]
+PROPS["C08"]["rule"] += (" ; flood engine (oracle only): bursts of 24 (60) queries delivered back to back so that replies overlap in time, "
+                         "x WaitToReply on/off x timed limiters: every reply attributed by transaction id must go to that query's source with its compact address")
+PROPS["C20"]["engines"] = ["server", "query", "flood"]
+PROPS["C20"]["rule"] += (" ; flood engine: timed limiters (rate 100..1000/s, burst 1..20): writes in every prefix window <= burst + rate x window "
+                         "(one-sided, real time), replies dropped without budget (wait off) or delayed (wait on), errors never wait")
 PROPS["C07"]["engines"] = ["server", "query"]
+PROPS["C19"]["engines"] = ["server", "query"]
+PROPS["C19"]["rule"] += (" ; query engine: NumTries 0..4 with SetIPBlockList covering the destination inside or after the i-th send, also followed by "
+                         "a reply from the now-blocked source: no further datagram may leave")
+PROPS["C16"]["rule"] += " ; mixed 4-byte / IPv4-mapped / IPv6 node representations (starting nodes and nodes6 listings)"
+PROPS["C12"]["rule"] += " ; getput.Get with a non-nil caller seq against nodes ignoring / honouring it"
 
 TRAV_RULE = ("traversal engine: real traversal.Start with a scripted blocking DoQuery; the explorer releases completions, AddNodes and "
              "Stop at quiescent points (hook VerifSnapshot: outstanding == entered-released and cond channel armed / loop exited). "
